@@ -1356,7 +1356,7 @@ def rule_accumulator_wrap(ctx, m, files=("Digit.hpp",), rid="ACC-wrap"):
     r = Rule(rid, "a decimal accumulation bounded only by the end of the input is guarded by a bound on the accumulator", floor=2)
     # one named exception: the unchecked conversion (no digit test, no range decision is taken from its result; its only caller
     # bounds-checks the index it yields).  It is outside the numeral grammar C09 speaks about.
-    EXEMPT = {"Qentem::Digit::FastStringToNumber": "documented unchecked conversion of a short digit string; the caller bounds-checks the result"}
+    EXEMPT = {"Qentem::Digit::FastStringToNumber": "documented unchecked conversion; IDX-digits (C02, C12) decides that every caller validates the text as at most nine decimal digits first"}
     for f in m.functions:
         if f.inst or not f.cfg or not any(f.file.endswith("/" + x) for x in files):
             continue
@@ -1534,4 +1534,59 @@ def rule_flush_first(ctx, m, fq, rid="PR-flush"):
              f.loc(bad_a) if bad_a is not None else f.loc(w))
         r.ob(f.q, "flushed cursor moves on", bad_b is None, "every iteration that flushed moves `%s` before it ends" % flushed_var if bad_b is None else
              "an iteration flushes the slice and ends without moving `%s`: the same text is written again by the next flush" % flushed_var, f.loc(w))
+    return r
+
+
+def rule_fast_digits(ctx, m, rid="IDX-digits"):
+    """IDX-digits: Digit::FastStringToNumber is the unchecked conversion: it neither tests that the units are digits nor that the
+    value fits (':' counts as ten, ten digits wrap).  It may be applied only to text its caller has validated: before the call
+    the same (pointer, length) pair is scanned by a loop that compares every unit with the digits '0' and '9' and is bounded both
+    by the length and by a constant number of digits, and the function leaves (returns) unless the scan consumed the whole,
+    non-empty text.  Otherwise {var:list[:]} renders element 10 and {var:list[4294967297]} element 1."""
+    r = Rule(rid, "the unchecked digit conversion is applied only to text validated as a short run of decimal digits", floor=1)
+    for f in m.functions:
+        if f.inst or not f.cfg:
+            continue
+        for c in astq.calls(f, "FastStringToNumber"):
+            if f.q.endswith("::FastStringToNumber"):
+                continue
+            args = f.call_args(c)
+            if len(args) != 3:
+                continue
+            ctx.note_fn(f)
+            ptr, ln = f.text(args[1]), f.text(args[2])
+            scan = None
+            for w in astq.nodes_of(f, ("WhileStmt", "ForStmt")):
+                if w > c:
+                    continue
+                cond = f.nodes[w].get("cond", -1)
+                if cond is None or cond < 0:
+                    continue
+                ct = f.text(cond)
+                units = [y for y in f.walk(cond) if f.nodes[y]["k"] == "ArraySubscriptExpr" and f.text(f.nodes[y]["ch"][0]) == ptr]
+                if not units or "Zero" not in ct or "Nine" not in ct:
+                    continue
+                counter = f.text(f.nodes[units[0]]["ch"][1])
+                bounded_len = any(f.nodes[y]["k"] == "BinaryOperator" and f.nodes[y]["op"] == "<" and f.text(f.nodes[y]["ch"][0]) == counter and f.text(f.nodes[y]["ch"][1]) == ln for y in f.walk(cond))
+                bounded_const = any(f.nodes[y]["k"] == "BinaryOperator" and f.nodes[y]["op"] in ("<", "<=") and f.text(f.nodes[y]["ch"][0]) == counter and
+                                    (f.const_value(f.strip_casts(f.nodes[y]["ch"][1])) is not None or m.eval_nodes(f.nodes, f.strip_casts(f.nodes[y]["ch"][1])) is not None or
+                                     f.nodes[f.strip_casts(f.nodes[y]["ch"][1])].get("dk") == "var") and f.text(f.nodes[y]["ch"][1]) != ln for y in f.walk(cond))
+                if bounded_len and bounded_const:
+                    scan = (w, counter)
+            guard = None
+            if scan:
+                for i in astq.nodes_of(f, "IfStmt"):
+                    if not (scan[0] < i < c):
+                        continue
+                    ct = f.text(f.nodes[i]["cond"]).replace(" ", "")
+                    whole = ("%s!=%s" % (scan[1], ln)) in ct or ("%s!=%s" % (ln, scan[1])) in ct
+                    nonempty = ("%s==0" % scan[1]) in ct or ("%s==0" % ln) in ct
+                    leaves = any(f.nodes[y]["k"] == "ReturnStmt" for y in f.walk(f.nodes[i]["then"]))
+                    if whole and nonempty and leaves:
+                        guard = i
+            ok = scan is not None and guard is not None
+            r.ob(f.sig if len(m.fns(f.q, required=False)) > 1 else f.q, f.text(c)[:60], ok,
+                 "`%s` is scanned for digits up to `%s` and a constant number of digits, and the function returns unless the scan consumed all of a non-empty text" % (ptr, ln) if ok else
+                 "%s: any text reaches the unchecked conversion (':' counts as ten, more than nine digits wrap the index)" % (
+                     "no loop validates `%s` as decimal digits before the call" % ptr if scan is None else "the digit scan is not followed by a return for a partial or empty match"), f.loc(c))
     return r
